@@ -506,6 +506,17 @@ pub fn apply<const N: usize>(
                 });
                 m(|| drop(it));
             }
+            6 => {
+                // the drain is leaked after the steps (C10)
+                let b = sut.b.as_mut().unwrap();
+                let mut d = m(|| b.drain(rs.bounds()));
+                run_steps(&mut d, st, tr, |e: E| {
+                    let t = tag_of(e.0);
+                    hold.elems.push(e);
+                    t
+                });
+                std::mem::forget(d);
+            }
             _ => {
                 let b = sut.b.as_mut().unwrap();
                 let mut d = m(|| b.drain(rs.bounds()));
@@ -813,7 +824,7 @@ pub fn exec_step<const N: usize>(
     let post = if consumed { Snap::default() } else { sut.snap() };
     let post_tags: Vec<Tag> = post.iter.iter().map(|id| tag_of(*id)).collect();
     let held = hold.ids();
-    if matches!(act, Act::Drain(_, _, Fin::Forget)) && !panicked && post.ok {
+    if matches!(act, Act::Drain(_, _, Fin::Forget) | Act::StepsOn(6, ..)) && !panicked && post.ok {
         // documented: a leaked drain may lose arbitrary elements; they are gone, not "leaked by a bug"
         let mut reach = post.iter.clone();
         reach.extend(held.iter().copied());
@@ -881,7 +892,7 @@ pub fn apply_fast<const N: usize>(sut: &mut Sut<N>, act: &Act) -> bool {
     }
     drop(hold);
     drop(args);
-    if matches!(act, Act::Drain(_, _, Fin::Forget)) && r.is_ok() && sut.b.is_some() {
+    if matches!(act, Act::Drain(_, _, Fin::Forget) | Act::StepsOn(6, ..)) && r.is_ok() && sut.b.is_some() {
         if let Ok(ids) = catch_unwind(AssertUnwindSafe(|| sut.ids())) {
             ledger::forgive_unreachable(&ids);
         }
